@@ -591,6 +591,137 @@ def collapse_locals(toks):
     return " ".join(out + ["k:END_LOCAL", "s:;"])
 
 
+def entity_slices(toks):
+    """{name: tokens of one ENTITY … END_ENTITY ; declaration}"""
+    out, i = {}, 0
+    while i < len(toks):
+        if toks[i] == K("ENTITY") and i + 1 < len(toks) and toks[i + 1][0] == "id":
+            j = i
+            while toks[j] != K("END_ENTITY"):
+                j += 1
+            out[toks[i + 1][1].lower()] = toks[i:j + 2]
+            i = j + 2
+        else:
+            i += 1
+    return out
+
+
+def _enc_attrname(a):
+    if a.startswith("self\\"):
+        e, at = a[5:].split(".", 1)
+        return f"R {hx(e)} {hx(at)}"
+    return "P " + hx(a)
+
+
+def _enc_sup(s):
+    k = s[0]
+    if k == "ent":
+        return "E " + hx(s[1])
+    if k == "oneof":
+        return f"O {len(s[1])} " + " ".join(_enc_sup(x) for x in s[1])
+    if k in ("and", "andor"):
+        acc = _enc_sup(s[1][0])
+        for x in s[1][1:]:
+            acc = f"B {1 if k == 'andor' else 0} {acc} {_enc_sup(x)}"
+        return acc
+    raise DeclError(f"supertype expression {s} has no Lean form")
+
+
+def enc_entity(name, e):
+    """entity AST (P.entity) -> request words of the Lean driver (`entity`); embedded expressions are not sent (they are `E` tokens)"""
+    w = [hx(name), str(int(e["abstract"]))]
+    w += ["1", _enc_sup(e["supertype_of"])] if e["supertype_of"] is not None else ["0"]
+    w += [str(len(e["subtype_of"]))] + [hx(x) for x in e["subtype_of"]]
+    w.append(str(len(e["attrs"])))
+    for a, opt, ty in e["attrs"]:
+        w += [_enc_attrname(a), str(int(bool(opt))), enc_ty(ty)]
+    w.append(str(len(e["derive"])))
+    for a, ty, _ in e["derive"]:
+        w += [_enc_attrname(a), enc_ty(ty)]
+    w.append(str(len(e["inverse"])))
+    for a, ty, f in e["inverse"]:
+        if ty[0] == "named":
+            w += [_enc_attrname(a), "-", "0", hx(ty[1]), hx(f)]
+        elif ty[0] == "aggr" and ty[5][0] == "named":
+            w += [_enc_attrname(a), ty[1], str(int(ty[2] is not None)), hx(ty[5][1]), hx(f)]
+        else:
+            raise DeclError(f"inverse attribute type {ty} has no Lean form")
+    w.append(str(len(e["unique"])))
+    for label, refs in e["unique"]:
+        w += [hx(label) if label else "-", str(len(refs))]
+    w.append(str(len(e["where"])))
+    for label, _ in e["where"]:
+        w.append(hx(label) if label else "-")
+    return " ".join(w)
+
+
+def collapse_entity(toks):
+    """tokens of an exppp ENTITY declaration -> the driver's token text (initialisers, bounds, precision, UNIQUE references and
+    domain rules become `E`)"""
+    p = P(toks); out = []
+    def raw(t):
+        if t[0] == "id": return "i:" + t[1].lower()
+        if t[0] == "skw": return "k:" + t[1]
+        if t[0] == "sym": return "s:" + t[1]
+        if t == ("op", "and"): return "k:AND"
+        if t == ("kw", "SELF"): return "k:SELF"
+        return "?" + str(t)
+    def name():
+        if p.at(("kw", "SELF")):
+            a = p.i; p.attr_ref(); out.extend(raw(t) for t in p.t[a:p.i])
+        else:
+            out.append("i:" + p.ident())
+    def is_name():
+        return p.peek()[0] == "id" or p.at(("kw", "SELF"))
+    p.eat(K("ENTITY")); out += ["k:ENTITY", "i:" + p.ident()]
+    if p.opt(K("ABSTRACT")): out.append("k:ABSTRACT")
+    if p.opt(K("SUPERTYPE")):
+        out.append("k:SUPERTYPE")
+        if p.opt(K("OF")):
+            out.append("k:OF"); a = p.i; p.eat(S("(")); p.super_expr(); p.eat(S(")"))
+            out.extend(raw(t) for t in p.t[a:p.i])
+    if p.opt(K("SUBTYPE")):
+        a = p.i; p.eat(K("OF")); p.eat(S("("))
+        p.ident()
+        while p.opt(S(",")): p.ident()
+        p.eat(S(")"))
+        out.append("k:SUBTYPE"); out.extend(raw(t) for t in p.t[a:p.i])
+    p.eat(S(";")); out.append("s:;")
+    while is_name():
+        name(); p.eat(S(":")); out.append("s::")
+        if p.opt(K("OPTIONAL")): out.append("k:OPTIONAL")
+        a = p.i; p.type_(); out.append(collapse(p.t[a:p.i])); p.eat(S(";")); out.append("s:;")
+    if p.opt(K("DERIVE")):
+        out.append("k:DERIVE")
+        while is_name():
+            name(); p.eat(S(":")); out.append("s::")
+            a = p.i; p.type_(); out.append(collapse(p.t[a:p.i]))
+            p.eat(S(":=")); p.expr_until(S(";")); p.eat(S(";")); out += ["s::=", "E", "s:;"]
+    if p.opt(K("INVERSE")):
+        out.append("k:INVERSE")
+        while is_name():
+            name(); p.eat(S(":")); out.append("s::")
+            a = p.i; p.type_(); out.append(collapse(p.t[a:p.i]))
+            p.eat(K("FOR")); out += ["k:FOR", "i:" + p.ident()]; p.eat(S(";")); out.append("s:;")
+    if p.opt(K("UNIQUE")):
+        out.append("k:UNIQUE")
+        while is_name():
+            if p.peek()[0] == "id" and p.peek(1) == S(":"):
+                out += ["i:" + p.ident(), "s::"]; p.eat()
+            p.attr_ref(); out.append("E")
+            while p.opt(S(",")):
+                p.attr_ref(); out += ["s:,", "E"]
+            p.eat(S(";")); out.append("s:;")
+    if p.opt(K("WHERE")):
+        out.append("k:WHERE")
+        while not p.at(K("END_ENTITY")):
+            if p.peek()[0] == "id" and p.peek(1) == S(":"):
+                out += ["i:" + p.ident(), "s::"]; p.eat()
+            p.expr_until(S(";")); p.eat(S(";")); out += ["E", "s:;"]
+    p.eat(K("END_ENTITY")); p.eat(S(";")); out += ["k:END_ENTITY", "s:;"]
+    return " ".join(out)
+
+
 def scopes_with_locals(ast):
     """every algorithm scope of a parsed schema (nested ones too) that has locals: list of [(name, type, init)]"""
     out = []
